@@ -254,16 +254,19 @@ def _flush_contract():
         params={"cls": "cls", "gateway": GW, "message": MSG, "message_buffer": BUFT},
         requires=[H("wf/buffer-is-gateways", "message_buffer is gateway._message_buffer"),
                   H("wf/schema-follows-protocol", "gateway._message_schema.ctx_protocol == gateway._protocol"),
-                  H("wf/buffer-dicts-distinct", "not (message_buffer.internal_messages is message_buffer.set_messages)")],
+                  H("wf/buffer-dicts-distinct", "not (message_buffer.internal_messages is message_buffer.set_messages)"),
+                  # while the release is suspended in a write, a concurrent send for this node must park, not overtake it (C09)
+                  P("C09/destination-asleep-during-release", "message.node_id in gateway.nodes and gateway.nodes[message.node_id].sleeping")],
         pre_lets={"n": "message.node_id", "SM": "message_buffer.set_messages"},
         witness={"done": (T("set", TKey3), "loop_done()")},
         returns="message",
         modifies=["message_buffer.set_messages[...]"] + GHOST_LOG + ["ghost.wcnt"],
         ensures=[
             P("C04/yields-the-message", "result is message"),
-            P("C07/released-gone", "forall(lambda q: implies(k3n(q) == n, not (q in SM)), 'key3')"),
+            # C08's "is written at a later wake": a release whose writes all succeed leaves nothing of that node behind
+            P("C07+C08/released-gone", "forall(lambda q: implies(k3n(q) == n, not (q in SM)), 'key3')"),
             P("C07/only-that-node", "forall(lambda q: implies(k3n(q) != n, (q in SM) == old(q in SM) and implies(q in SM, SM[q] is old(SM[q]))), 'key3')"),
-            P("C07/each-released-once", f"forall(lambda x: wcnt(x) == old(wcnt(x)) + (1 if {RELEASED} else 0), 'Message')"),
+            P("C07+C08/each-released-once", f"forall(lambda x: wcnt(x) == old(wcnt(x)) + (1 if {RELEASED} else 0), 'Message')"),
             H("C07/log-grows", "wlen() >= old(wlen())"),
             P("C10/release-leaves-request-markers-alone", "same_dict(message_buffer.internal_messages)"),
             CANARY("C07/canary-nothing-released", "same_dict(SM)"),
